@@ -5,6 +5,7 @@
 //!        c03 worker gen <seed> <depth> <from> <n>   (crash-isolated batch of generated programs)
 //!        c03 dump '<source>'             (print the structured MIR dump)
 //!        c03 exec <ret> '<source>' n m c (run main once, print the balance)
+//!        c03 gone '<source>'             (variables whose only writes dead-code elimination removed)
 
 #[path = "../c03/progen.rs"]
 mod progen;
@@ -142,9 +143,14 @@ fn dump(src: &str) -> Result<Vec<roto::verif_hooks::c03::ItemDump>, String> {
 
 /// per item: (variable, label of the block that wrote it) for the variables whose only writes
 /// were removed by dead-code elimination
-fn eliminated_definitions(src: &str) -> Vec<(String, Vec<(String, String)>)> {
+type Gone = Vec<(String, Vec<(String, String)>)>;
+
+/// The dump together with the eliminated definitions of the *same* lowering: two lowerings of one
+/// script number the temporaries of a `match` differently (guard chains in hash-set order).
+fn dump_with_gone(src: &str) -> Result<(Vec<roto::verif_hooks::c03::ItemDump>, Gone), String> {
     let rt = runtime();
-    roto::verif_hooks::c03::eliminated_definitions(FileTree::test_file("c03.roto", src, 0), &rt).unwrap_or_default()
+    roto::verif_hooks::c03::dump_with_eliminated(FileTree::test_file("c03.roto", src, 0), &rt)
+        .map_err(|e| format!("{e}"))
 }
 
 fn nums_line(nums: &[u64]) -> String {
@@ -368,9 +374,8 @@ struct Checked {
 
 /// Dump every item of `src` and run the verified checker on each.
 fn check_script(drv: &mut Driver, src: &str) -> Result<Checked, String> {
-    let items = dump(src)?;
+    let (items, gone) = dump_with_gone(src)?;
     let mut out = Checked { items: items.len(), blocks: 0, rejects: vec![], bad: vec![] };
-    let mut gone: Option<Vec<(String, Vec<(String, String)>)>> = None;
     for it in &items {
         if !it.lowered {
             // the LIR lowerer skips items with an uninhabited parameter
@@ -394,10 +399,7 @@ fn check_script(drv: &mut Driver, src: &str) -> Result<Checked, String> {
                 let (def_block, eliminated) = if known || w[4] == "-" {
                     (lbl(w[4]), false)
                 } else {
-                    if gone.is_none() {
-                        gone = Some(eliminated_definitions(src));
-                    }
-                    let found = gone.as_ref().unwrap().iter().find(|(item, _)| *item == it.name)
+                    let found = gone.iter().find(|(item, _)| *item == it.name)
                         .and_then(|(_, defs)| defs.iter().find(|(v, _)| *v == var).map(|(_, l)| l.clone()));
                     match found {
                         Some(l) => (l, true),
@@ -1124,6 +1126,14 @@ fn main() {
             }
             Err(e) => println!("ERROR\n{e}"),
         },
+        Some("gone") => {
+            // the variables whose only writes were removed by dead-code elimination
+            for (item, defs) in dump_with_gone(&args[2]).map(|x| x.1).unwrap_or_default() {
+                for (v, l) in defs {
+                    println!("{item}: {v} written only in {l}");
+                }
+            }
+        }
         Some("emit-lean") => {
             // write the current tree's dumps of the witness scripts as Lean definitions
             let out = &args[2];
